@@ -128,6 +128,9 @@ func hC04(n, prefix, L2, vlen int) {
 
 func H_C04_q()    { hC04(2, 2, 1, 2) }
 func H_C04_tear() { hC04(2, 1, 1, 300) }
+
+// the second record starts 4 bytes before the 1024 boundary: a tear leaves a partial size header
+func H_C04_tearhdr() { hC04(2, 1, 1, 490) }
 func H_C04_t()    { hC04(2, 2, 2, 2) }
 
 // vCheckLogInvariant: appends must go to the newest segment (recovery replays
